@@ -29,10 +29,10 @@ def masked_mse_loss(
     loss : float
         Masked mean squared error loss.
     """
-    return jnp.mean(
-        optax.squared_error(predictions=predictions, targets=targets)
-        * mask[:, jnp.newaxis]
-    )
+    squared_error = optax.squared_error(predictions=predictions, targets=targets)
+    # one mask entry per sample, broadcast over any feature axes
+    mask = mask.reshape(mask.shape + (1,) * (squared_error.ndim - mask.ndim))
+    return jnp.mean(squared_error * mask)
 
 
 def stochastic_policy_gradient_pseudo_loss(
